@@ -75,6 +75,22 @@ func writeCorpus(dir string) {
 			panic(err)
 		}
 	}
+	// name conflicts across clusters, differing in case
+	lowerName := base("https://127.0.0.1:6443")
+	lowerName.Name = hx("api.example.com")
+	aliasUpper := base("https://127.0.0.1:6443")
+	aliasUpper.Serving.ServerNames = []string{hx("API.Example.COM")}
+	conflicts := map[string]Case{
+		"conflict-name-vs-mixed-case-alias": {Cluster: lowerName, Known: []KnownW{{Name: hx("first.example"), ServerNames: []string{hx("API.Example.COM")}}}},
+		"conflict-alias-vs-alias-case":      {Cluster: aliasUpper, Known: []KnownW{{Name: hx("first.example"), ServerNames: []string{hx("api.example.com")}}}},
+		"conflict-alias-vs-name-case":       {Cluster: aliasUpper, Known: []KnownW{{Name: hx("api.example.com")}}},
+	}
+	for name, cs := range conflicts {
+		b, _ := json.MarshalIndent(map[string]interface{}{"origin": "seeded change C16 round 2/m2: the plugin compared the lower-cased cluster name with the other cluster's names as spelled; the gateway keys clusters by lower-cased names and refused the admitted object", "case": cs}, "", " ")
+		if err := os.WriteFile(filepath.Join(dir, name+".json"), b, 0o644); err != nil {
+			panic(err)
+		}
+	}
 	for name, f := range files {
 		b, _ := json.MarshalIndent(map[string]interface{}{"origin": f.origin, "case": Case{Cluster: f.w}}, "", " ")
 		if err := os.WriteFile(filepath.Join(dir, name+".json"), b, 0o644); err != nil {
